@@ -176,7 +176,7 @@ def gen_history(rng, header, nops, malformed=0.2, stats=None):
                 op = ("kstep",)
             elif family in ("buf", "bufedge", "fleet", "slot", "cbelt") and r < 0.985:
                 op = ("probe", rng.choice(["can_put", "can_get", "occ", "ready"] if family not in ("slot", "cbelt") else
-                                          (["occ", "ready", "mode", "mode"] if family == "slot" else ["occ", "ready", "mode", "mode", "pat", "pat"])))
+                                          (["occ", "ready", "mode", "mode"] if family == "slot" else ["occ", "ready", "mode", "mode", "pat", "pat", "stuck", "stuck"])))
             elif family in ("buf", "bufedge", "fleet", "slot", "cbelt") and r < 0.99:
                 op = ("final",)
             else:
